@@ -20,11 +20,11 @@ LEVEL_TEXT = ("Bounded contract on the real xarray_dataset_from_results / load_x
 LEVEL_TEXT += (" Proved part (pyvc): _data_loader - the only place where the two entry points differ: given the results of a run it hands out that run's output, otherwise what load_outputs reads from the folder (load_outputs is an assumed contract; that both hold the same values is C04).")
 LEVEL_NOTE = ("Bounds: programs of 1..3 functions, rank<=2, sizes 1..3, load_intermediate on/off, inputs supplied or "
               "taken from (array) defaults. Trusted: reference denotation rtc/progs.py, xarray.")
-TECHNIQUE = "bounded contract checking of the dataset labelling against the reference denotation (no deductive part)"
-TECHNIQUE += ('; _data_loader discharged by z3')
+TECHNIQUE = ("bounded contract checking of the dataset labelling against the reference denotation; the loader "
+             "_data_loader (the one place where the two entry points differ) discharged by z3")
 EXPLANATION = LEVEL_TEXT
 RULE = ("program x load_intermediate; distinct = distinct (program, flag); non-trivial = a mapped output with >=2 elements")
-TRUSTED_BASE = ["reference denotation rtc/progs.py", "xarray / pandas"]
+TRUSTED_BASE = ["reference denotation rtc/progs.py", "xarray / pandas", "pyvc/z3 for _data_loader"]
 ASSUMPTIONS = ["input values are distinct strings"]
 
 
